@@ -58,6 +58,7 @@ CLASS2STAGE = {"State": 1, "TimeKeeper": 2, "Grid": 3, "Forcing": 4, "ParticleRe
                "Output": 8}
 NAME2STAGE = {"state": 1, "time": 2, "grid": 3, "forcing": 4, "release": 5, "tracker": 6, "ibm": 7, "output": 8}
 SEC = {"missing": 0, "null": 1, "present": 2}
+REF_SHIFTS = [0, -86400, 43200, 1800]
 CF = {"ok": 0, "missing": 1, "badsyntax": 2, "badversion": 3}
 
 
@@ -76,7 +77,9 @@ def realize(desc, d: Path):
     if not fdir.exists():
         fdir.mkdir(parents=True)
         for k, times in enumerate(desc["files"]):
-            rf.write_roms(fdir / f"ocean_{k:03d}.nc", imax=imax, jmax=jmax, N=2, times=times, u=0.0, v=0.0)
+            # every file has its own time reference (as files produced by different model runs have)
+            rf.write_roms(fdir / f"ocean_{k:03d}.nc", imax=imax, jmax=jmax, N=2, times=times, u=0.0, v=0.0,
+                          time_ref_shift=REF_SHIFTS[k % len(REF_SHIFTS)])
     if desc["forcing_single_name"] and len(desc["files"]) == 1:
         fpattern = str(fdir / "ocean_000.nc")
     else:
